@@ -40,7 +40,8 @@ pub fn gen06(tier: &str, rng: &mut Rng) -> Vec<Spec> {
         if i % 4 == 0 { v.push(mk(pos(rng), pos(rng) + h(1, 4), h(1, 1), h(0, 1), h(1, 1), plain, &zs, &us)); }
         else { v.push(mk(pos(rng), pos(rng), s(rng), s(rng), s(rng), plain, &zs, &us)); }
     }
-    v
+    let v: Vec<Spec> = v.into_iter().map(|s| if s.has("zs") && !s.has("xs") { let z = s.get("zs").to_string(); s.with("xs", z) } else { s }).collect();
+    add_entry_points(v, rng, &["kalman"], 15, |rng: &mut Rng| { let l = rng.range(1, 3); (0..l).map(|_| rng.range(1, 9).to_string()).collect::<Vec<_>>().join(",") })
 }
 pub fn exec06(s: &Spec, stats: &mut Stats) -> Outcome {
     let cfg = kal::Config { r: s.rat("r"), q: s.rat("q"), a: s.rat("a"), b: s.rat("b"), c: s.rat("c") };
@@ -63,7 +64,7 @@ pub fn exec06(s: &Spec, stats: &mut Stats) -> Outcome {
     }
     let cov0 = if s.has("cov0") { s.rat("cov0") } else { Rat::int(0) };
     if cov0 != Rat::int(0) { stats.bump("injected-stale-covariance"); }
-    let mut f = if cov0 == Rat::int(0) { kal::Kalman::with_config(cfg.clone()) } else { <kal::Kalman<Rat> as signalo_traits::FromGuts>::from_guts((cfg.clone(), kal::State { cov: cov0, value: None })) };
+    let mut f = if cov0 == Rat::int(0) { enter(kal::Kalman::with_config(cfg.clone()), stats, |f, t| { let _ = <kal::Kalman<Rat> as Filter<Rat>>::filter(f, Rat::parse(t)); }) } else { <kal::Kalman<Rat> as signalo_traits::FromGuts>::from_guts((cfg.clone(), kal::State { cov: cov0, value: None })) };
     let (mut ys, mut covs, mut panic) = (vec![], vec![], false);
     for (z, u) in zs.iter().zip(us.iter()) {
         let r = if plain { catch(|| f.filter(*z)) } else { catch(|| f.filter((*z, *u))) };
